@@ -350,6 +350,20 @@ EvTry == IsEv /\ X.e = "try" /\      \* try body catch E in { E has X => h } alw
 HaltText == "Unhandled Exception: RuntimeError(??)\n(Aldor error) Halt\n"
 EvError == IsEv /\ X.e = "error" /\
   Go([st EXCEPT !.o = st.o \o <<X.msg, "\n", HaltText>>, !.status = "halt"])
+(* assert(c): c is evaluated; when it is false the run-time system prints where the        *)
+(* assertion stands (unit, line and source text: replaced by "@@" on both sides of the     *)
+(* comparison, the specification does not know the layout of the rendered file), reports   *)
+(* the RuntimeError and the program ends with a failure status.  The optimiser's           *)
+(* documented switch -Qdel-assert (on from -Q2) deletes assertions, test included: the     *)
+(* harness sets DELASSERT=1 when it evaluates a program for those levels.                  *)
+DelAssert == "DELASSERT" \in DOMAIN IOEnv /\ IOEnv.DELASSERT = "1"
+AssertText == "Assertion failed at @@\nUnhandled Exception: RuntimeError(??)\n(Aldor error) Assertion failed.\n"
+EvAssert == IsEv /\ X.e = "assert" /\
+  Go(IF DelAssert THEN [st EXCEPT !.c = Val(VUnit)]
+     ELSE [st EXCEPT !.c = Ev(X.c), !.k = Push(st.k, [f |-> "assert", env |-> st.e])])
+RetAssert == IsVal /\ HasF /\ F.f = "assert" /\
+  Go(IF st.c.v.b THEN [st EXCEPT !.c = Val(VUnit), !.e = F.env, !.k = Pop(st.k)]
+     ELSE [st EXCEPT !.o = st.o \o <<AssertText>>, !.status = "halt"])
 
 (* a value arrives at an operand frame: next operand, or apply              *)
 RetArgsNext == IsVal /\ HasF /\ F.f = "args" /\ F.todo # {} /\
@@ -494,7 +508,7 @@ Init == /\ pid \in 1..Len(Progs)
 Step == \/ EvLit \/ EvBool \/ EvStr \/ EvUnit \/ EvVar \/ EvMac \/ EvPrim \/ EvCall \/ EvCallV \/ EvPrint
         \/ EvList \/ EvCons \/ EvListOp \/ EvNewArr \/ EvARef \/ EvASet \/ EvALen \/ EvMkRec \/ EvRGet \/ EvRSet
         \/ EvMkUn \/ EvUIs \/ EvUGet \/ EvDCall \/ EvThrow \/ EvIf \/ EvAnd \/ EvOr \/ EvSeq \/ EvAsg \/ EvLet \/ EvLam \/ EvGen
-        \/ EvWhile \/ EvFor \/ EvForIn \/ EvBreak \/ EvIter \/ EvRet \/ EvYield \/ EvTry \/ EvError
+        \/ EvWhile \/ EvFor \/ EvForIn \/ EvBreak \/ EvIter \/ EvRet \/ EvYield \/ EvTry \/ EvError \/ EvAssert \/ RetAssert
         \/ RetArgsNext \/ RetArgsApply \/ RetIf \/ RetAnd \/ RetOr \/ RetSeq \/ RetExitTaken \/ RetExitNot
         \/ RetAsg \/ RetLet \/ RetWhileCond \/ RetWhileBody \/ RetForStep \/ RetForInList \/ RetForInGen
         \/ RetGenEnd \/ RetYieldK \/ YieldUnwind \/ YieldDeliver \/ RetCall \/ RetRetK \/ RetUnwind \/ RetArrive
